@@ -30,7 +30,7 @@ type c07member struct {
 	ID   string // raw JSON id; "" = notification
 	Kind byte   // 'G' stubborn gated, 'i' instant, 'e' error, 'n' unknown method, 'r' reserved rpc.x
 	Tag  string
-	St   int // 0 not dispatched, 1 duplicate-rejected, 2 running, 3 done, 4 checked and parked at the barrier
+	St   int  // 0 not dispatched, 1 duplicate-rejected, 2 running, 3 done, 4 checked and parked at the barrier
 	Pre  bool // context cancelled (CancelRequest) before the handler could start: it never runs
 }
 
